@@ -527,7 +527,17 @@ func (c *TCPConn) write(b []byte) (int, error) {
 			continue
 		}
 		ch := p.notify
+		gone, at := p.readerGone, p.readerGoneAt
 		p.mu.Unlock()
+		if gone && simrt.Elapsed() < at {
+			// the peer has closed, the news is still on its way (delivery delay): it arrives at a
+			// known time, and nobody broadcasts then
+			select {
+			case <-ch:
+			case <-time.After(at - simrt.Elapsed()):
+			}
+			continue
+		}
 		<-ch
 	}
 }
